@@ -4,6 +4,9 @@
 (* One object (Molecule / Structure / ConformerEnsemble) is built, written as   *)
 (* mol2 text, read back, written again and read again:                          *)
 (*      Build -> Write -> Read -> Write2 -> Read2        (phase 1 .. 5)         *)
+(* and, after a write, the SAME object may be edited (bond re-typed, atom       *)
+(* re-typed / re-labelled / moved, renamed) and goes through the cycle again:   *)
+(* whatever the writer remembers from the first write must not reach the text.  *)
 (* The CONTRACT (the clauses of C07) is the list of state predicates at the end *)
 (* of this module.  They only relate the abstract object `obj`, what was read   *)
 (* back (`back`, `back2`) and the tokens of the two texts (`text`, `text2`); the *)
@@ -31,6 +34,9 @@ CONSTANTS Elements, AtomTypes, AtomGeoms, BondTypes,   \* vocabularies, read fro
           BondPool,         \* bond types used while building
           XyzSeq, QSeq,     \* coordinate triples / charges; conformer c of an atom uses entry xi+c-1 (cyclic)
           MaxAtoms, MaxBonds, MaxConfs,
+          MaxEdits,         \* edits of the built object (each followed by a new write/read cycle of the SAME object)
+          EditBonds,        \* bond types an existing bond may be re-typed to
+          EditPhases,       \* phases in which the model edits (the contract allows any phase >= 2: after a write)
           Deviations        \* named wrong behaviours of the model (non-vacuity; list of realistic bugs)
 
 VARIABLES rec,      \* recipe under construction (model only)
@@ -39,9 +45,11 @@ VARIABLES rec,      \* recipe under construction (model only)
           text,     \* tokens of the first text:  [out, blocks]
           back,     \* object read back:          [out, blocks]
           text2, back2,
+          edits,    \* number of edits made to the object since it was built
+          pend,     \* model only: the edit that was picked and is applied by the next step
           last
-vars == <<rec, phase, obj, text, back, text2, back2, last>>
-sv   == <<rec, phase, obj, text, back, text2, back2>>
+vars == <<rec, phase, obj, text, back, text2, back2, edits, pend, last>>
+sv   == <<rec, phase, obj, text, back, text2, back2, edits, pend>>
 
 Unit      == 10000000          \* 1 A in coordinate fraction units (1e-7 A)
 CoordTol  == 10                \* 1e-6 A  : the written precision of coordinates
@@ -147,35 +155,61 @@ ObjOf(r) == [kind |-> r.kind, blocks |-> [c \in 1..r.nconf |-> BlockOf(r, c)]]
 New(k, n, na, nb, nc) ==
   /\ phase = 0 /\ rec.kind = "none"
   /\ rec' = [kind |-> k, name |-> n, atoms |-> <<>>, bonds |-> <<>>, nconf |-> 1, na |-> na, nb |-> nb, nc |-> nc]
-  /\ UNCHANGED <<phase, obj, text, back, text2, back2>> /\ last' = [act |-> "new"]
+  /\ UNCHANGED <<pend, edits, phase, obj, text, back, text2, back2>> /\ last' = [act |-> "new"]
 CanAddAtom == phase = 0 /\ rec.kind # "none" /\ Len(rec.atoms) < rec.na
 AddAtom(p) == /\ CanAddAtom
               /\ rec' = [rec EXCEPT !.atoms = Append(@, p)]
-              /\ UNCHANGED <<phase, obj, text, back, text2, back2>> /\ last' = [act |-> "addatom"]
+              /\ UNCHANGED <<pend, edits, phase, obj, text, back, text2, back2>> /\ last' = [act |-> "addatom"]
 CanConnect == phase = 0 /\ rec.kind # "none" /\ Len(rec.atoms) = rec.na /\ Len(rec.bonds) < rec.nb
 Connect(i, j, bt) ==
   /\ CanConnect
   /\ i \in 1..Len(rec.atoms) /\ j \in 1..Len(rec.atoms) /\ i # j
   /\ \A k \in 1..Len(rec.bonds) : {rec.bonds[k].a, rec.bonds[k].b} # {i, j}      \* one bond per pair
   /\ rec' = [rec EXCEPT !.bonds = Append(@, [a |-> i, b |-> j, bt |-> bt])]       \* (i, j) in the order given to connect()
-  /\ UNCHANGED <<phase, obj, text, back, text2, back2>> /\ last' = [act |-> "connect"]
+  /\ UNCHANGED <<pend, edits, phase, obj, text, back, text2, back2>> /\ last' = [act |-> "connect"]
 Sized == phase = 0 /\ rec.kind # "none" /\ Len(rec.atoms) = rec.na /\ Len(rec.bonds) = rec.nb
 AddConf == /\ Sized /\ rec.nconf < rec.nc
            /\ rec' = [rec EXCEPT !.nconf = @ + 1]
-           /\ UNCHANGED <<phase, obj, text, back, text2, back2>> /\ last' = [act |-> "addconf"]
+           /\ UNCHANGED <<pend, edits, phase, obj, text, back, text2, back2>> /\ last' = [act |-> "addconf"]
 Build == /\ Sized /\ rec.nconf = rec.nc
          /\ phase' = 1 /\ obj' = ObjOf(rec)
-         /\ UNCHANGED <<rec, text, back, text2, back2>> /\ last' = [act |-> "build"]
+         /\ UNCHANGED <<pend, edits, rec, text, back, text2, back2>> /\ last' = [act |-> "build"]
 
 (* ------------------------------------------------------------------------- *)
 (* The four calls.  Do*(x) only records the outcome x; the model instantiates *)
 (* x with WriteModel / ReadModel, the trace spec with what the code did.      *)
 (* ------------------------------------------------------------------------- *)
-DoBuild(o)  == phase = 0 /\ phase' = 1 /\ obj' = o   /\ UNCHANGED <<rec, text, back, text2, back2>> /\ last' = [act |-> "build"]
-DoWrite(t)  == phase = 1 /\ phase' = 2 /\ text' = t  /\ UNCHANGED <<rec, obj, back, text2, back2>>  /\ last' = [act |-> "write"]
-DoRead(b)   == phase = 2 /\ phase' = 3 /\ back' = b  /\ UNCHANGED <<rec, obj, text, text2, back2>>  /\ last' = [act |-> "read"]
-DoWrite2(t) == phase = 3 /\ phase' = 4 /\ text2' = t /\ UNCHANGED <<rec, obj, text, back, back2>>   /\ last' = [act |-> "write2"]
-DoRead2(b)  == phase = 4 /\ phase' = 5 /\ back2' = b /\ UNCHANGED <<rec, obj, text, back, text2>>   /\ last' = [act |-> "read2"]
+DoBuild(o)  == phase = 0 /\ phase' = 1 /\ obj' = o   /\ UNCHANGED <<pend, edits, rec, text, back, text2, back2>> /\ last' = [act |-> "build"]
+DoWrite(t)  == phase = 1 /\ phase' = 2 /\ text' = t  /\ UNCHANGED <<pend, edits, rec, obj, back, text2, back2>>  /\ last' = [act |-> "write"]
+DoRead(b)   == phase = 2 /\ phase' = 3 /\ back' = b  /\ UNCHANGED <<pend, edits, rec, obj, text, text2, back2>>  /\ last' = [act |-> "read"]
+DoWrite2(t) == phase = 3 /\ phase' = 4 /\ text2' = t /\ UNCHANGED <<pend, edits, rec, obj, text, back, back2>>   /\ last' = [act |-> "write2"]
+DoRead2(b)  == phase = 4 /\ phase' = 5 /\ back2' = b /\ UNCHANGED <<pend, edits, rec, obj, text, back, text2>>   /\ last' = [act |-> "read2"]
+
+(* An edit of the built object through its public attributes, after it has been written at least once; the SAME  *)
+(* object then goes through Write/Read again and the whole contract applies to the edited object.               *)
+DoEdit(o) == /\ phase >= 2 \/ (phase = 1 /\ edits > 0)
+             /\ phase' = 1 /\ obj' = o /\ edits' = edits + 1
+             /\ UNCHANGED <<pend, rec, text, back, text2, back2>> /\ last' = [act |-> "edit"]
+(* model: an edit is picked (PickEdit: bond re-typed / atom re-typed and re-labelled / atom moved / renamed) and     *)
+(* applied by the next step (ApplyEdit), so that a random walk prints exactly the edit it takes                      *)
+NoPend == [d |-> [op |-> "none"], r |-> NoRec]
+CanEdit == /\ rec.kind # "none" /\ edits < MaxEdits /\ pend = NoPend
+           /\ phase \in EditPhases \/ (phase = 1 /\ edits > 0)
+EditTo(r, d) == /\ r # rec /\ pend' = [d |-> d, r |-> r]
+                /\ UNCHANGED <<rec, phase, obj, text, back, text2, back2, edits>> /\ last' = [act |-> "pick"]
+RetypeBond(i, bt) == EditTo([rec EXCEPT !.bonds[i].bt = bt], [op |-> "bond", i |-> i, bt |-> bt])          \* bond.btype = ...
+RetypeAtom(i, p)  == EditTo([rec EXCEPT !.atoms[i] = [p EXCEPT !.xi = rec.atoms[i].xi, !.qi = rec.atoms[i].qi]],
+                            [op |-> "atom", i |-> i, el |-> p.el, at |-> p.at, g |-> p.g, lab |-> p.lab])   \* element, atype, geom, label
+MoveAtom(i)       == EditTo([rec EXCEPT !.atoms[i].xi = @ + 1, !.atoms[i].qi = @ + 1], [op |-> "move", i |-> i])  \* coords, charges
+Rename(n)         == EditTo([rec EXCEPT !.name = n], [op |-> "name", n |-> n])
+PickEdit == /\ CanEdit
+            /\ \/ \E i \in 1..Len(rec.bonds), bt \in EditBonds : RetypeBond(i, bt)
+               \/ \E i \in 1..Len(rec.atoms), p \in AtomPool : RetypeAtom(i, p)
+               \/ \E i \in 1..Len(rec.atoms) : MoveAtom(i)
+               \/ \E n \in Names : Rename(n)
+ApplyEdit == /\ pend # NoPend
+             /\ rec' = pend.r /\ obj' = ObjOf(pend.r) /\ phase' = 1 /\ edits' = edits + 1 /\ pend' = NoPend
+             /\ UNCHANGED <<text, back, text2, back2>> /\ last' = [act |-> "edit", op |-> pend.d]
 
 (* ----- reference model of dump_mol2 ---------------------------------------- *)
 RoundTo(n, m) == IF n >= 0 THEN ((n + m \div 2) \div m) * m ELSE -(((-n + m \div 2) \div m) * m)
@@ -186,17 +220,25 @@ RoundCoord(c, m) == LET rf == RoundTo(c.f, m) IN
 CoordStep == IF "FourDecimals" \in Deviations THEN 1000 ELSE 10        \* {x:>12.6f}
 WLabel(a) == IF a.lab = "" THEN a.el
              ELSE IF "LabelTruncated" \in Deviations /\ a.lab = "Fe_long_label" THEN "Fe_" ELSE a.lab
-WBlock(b) ==
+(* `old` is the text block this same object produced at its previous write (empty if none): a writer that caches *)
+(* tokens per atom / bond object re-emits them after an edit (deviations StaleBondTokenCache, StaleAtomTokenCache)   *)
+NoTextBlock == [name |-> "", atoms |-> <<>>, bonds |-> <<>>]
+OldBlock(old, c) == IF old.out = "ok" /\ c <= Len(old.blocks) THEN old.blocks[c] ELSE NoTextBlock
+WBlock(b, old) ==
   [name  |-> b.name,
    atoms |-> [i \in 1..Len(b.atoms) |->
                 [lab |-> WLabel(b.atoms[i]),
                  xyz |-> [d \in 1..3 |-> RoundCoord(b.xyz[i][d], CoordStep)],
-                 tok |-> EmitAtom(b.atoms[i]),
+                 tok |-> IF "StaleAtomTokenCache" \in Deviations /\ i <= Len(old.atoms) THEN old.atoms[i].tok
+                         ELSE EmitAtom(b.atoms[i]),
                  q   |-> IF Len(b.q) = 0 \/ "ChargeColumnDropped" \in Deviations THEN 0 ELSE RoundTo(b.q[i], 100)]],
-   bonds |-> [i \in 1..Len(b.bonds) |-> [a |-> b.bonds[i].a, b |-> b.bonds[i].b, tok |-> EmitBond(b.bonds[i].bt)]]]
-WriteModel(kind, blocks) ==
+   bonds |-> [i \in 1..Len(b.bonds) |->
+                [a |-> b.bonds[i].a, b |-> b.bonds[i].b,
+                 tok |-> IF "StaleBondTokenCache" \in Deviations /\ i <= Len(old.bonds) THEN old.bonds[i].tok
+                         ELSE EmitBond(b.bonds[i].bt)]]]
+WriteModel(kind, blocks, old) ==
   IF kind = "Struct" /\ "StructDumpsRecursion" \in Deviations THEN Raised      \* as found: dumps_mol2 calls itself
-  ELSE [out |-> "ok", blocks |-> [c \in 1..Len(blocks) |-> WBlock(blocks[c])]]
+  ELSE [out |-> "ok", blocks |-> [c \in 1..Len(blocks) |-> WBlock(blocks[c], OldBlock(old, c))]]
 
 (* ----- reference model of read_mol2 + yield_from_mol2 ----------------------- *)
 TokensAccepted(t) ==
@@ -219,12 +261,12 @@ ReadModel(kind, t) ==
            src(c) == IF kind = "Ens" /\ "ConformerOrderLost" \in Deviations THEN n + 1 - c ELSE c
        IN [out |-> "ok", blocks |-> [c \in 1..n |-> RBlock(kind, t.blocks[src(c)])]]
 
-Write  == DoWrite(WriteModel(obj.kind, obj.blocks))
-Read   == DoRead(ReadModel(obj.kind, text))
-Write2 == DoWrite2(IF back.out = "ok" THEN WriteModel(obj.kind, back.blocks) ELSE Raised)
-Read2  == DoRead2(ReadModel(obj.kind, text2))
+Write  == pend = NoPend /\ DoWrite(WriteModel(obj.kind, obj.blocks, text))          \* `text` = previous text of this object, if any
+Read   == pend = NoPend /\ DoRead(ReadModel(obj.kind, text))
+Write2 == pend = NoPend /\ DoWrite2(IF back.out = "ok" THEN WriteModel(obj.kind, back.blocks, Nothing) ELSE Raised)   \* a new object
+Read2  == pend = NoPend /\ DoRead2(ReadModel(obj.kind, text2))
 
-Init == /\ rec = NoRec /\ phase = 0 /\ obj = NoObj /\ text = Nothing /\ back = Nothing /\ text2 = Nothing /\ back2 = Nothing
+Init == /\ edits = 0 /\ pend = NoPend /\ rec = NoRec /\ phase = 0 /\ obj = NoObj /\ text = Nothing /\ back = Nothing /\ text2 = Nothing /\ back2 = Nothing
         /\ last = [act |-> "init"]
 (* guards are hoisted out of the quantifiers: AtomPool may hold every element x type x geometry triple *)
 Next == \/ (phase = 0 /\ rec.kind = "none" /\
@@ -233,7 +275,7 @@ Next == \/ (phase = 0 /\ rec.kind = "none" /\
                    New(k, n, na, nb, nc))
         \/ (CanAddAtom /\ \E p \in AtomPool : AddAtom(p))
         \/ (CanConnect /\ \E i, j \in 1..Len(rec.atoms), bt \in BondPool : Connect(i, j, bt))
-        \/ AddConf \/ Build \/ Write \/ Read \/ Write2 \/ Read2
+        \/ AddConf \/ Build \/ Write \/ Read \/ Write2 \/ Read2 \/ PickEdit \/ ApplyEdit
 Spec == Init /\ [][Next]_vars
 
 (* ------------------------------------------------------------------------- *)
